@@ -20,7 +20,9 @@
 (* messages (a full-state report overrides what events said before it, also when it is byte-      *)
 (* identical to an earlier full-state report), and dec.hist records it after every decoded message. *)
 EXTENDS Integers, Sequences, FiniteSets, TLC, Bitwise
-CONSTANTS Configs,      \* set of link configurations [proto, frames, fill, noise, keys, sws, infl, P, G, saf, san, inv, swc]
+CONSTANTS Configs,      \* set of link configurations [proto, frames, fill, noise, keys, sws, infl, P, G, saf, san, inv, swc, cards]
+                        \*   (OPP: cards = the Gen2 cards on the chain with the wing layout each reports at start-up, see
+                        \*    "wing layouts" below; keys is not used: what may report follows from the wings)
                         \*   (FAST: saf = comma separated fields in front of the data of an "SA:" report (1 Neuron/Retro,
                         \*    3 Nano), san = data bytes of a report, inv = numbers of the normally-closed switches)
           MaxFrames, MaxFaults (* drops + replacements + insertions *), MaxInsert, MaxFill, MaxChunk,
@@ -61,9 +63,32 @@ IndexOf(s, b) == IF \E i \in 1..Len(s) : s[i] = b
                  THEN CHOOSE i \in 1..Len(s) : s[i] = b /\ \A j \in 1..(i - 1) : s[j] # b ELSE 0
 HasHigh(m) == \E i \in 1..Len(m) : m[i] >= 128      \* not decodable as text (cfg.noise uses 255 only)
 
+\* ---------------------------------------------------------------- OPP Gen2 wing layouts
+\* c.cards = << [a |-> address byte of the card, w |-> <<code of wing 0, .., code of wing 3>>], .. >>: the answer of every
+\* card to GET_GEN2_CFG at start-up (wing codes: mpf/platforms/opp/opp_rs232_intf.py WING_*).  What a card reports, and
+\* which bits of a report are switches, follows from its wings (OPP protocol; opp.py _parse_gen2_board builds the
+\* decoder's tables inp_addr_dict / matrix_inp_addr_dict / inp_dict from it):
+\*   direct inputs (read-input report, command 8, 32 bits: wing j owns bits 8j .. 8j+7):
+\*       1 solenoid wing: inputs 0-3 of its byte      2 input wing: 0-7
+\*       6 neopixel wing: all but 4 (the pixel data)   8 neopixel + solenoid wing: 1-3
+\*     every other wing (3 incandescent, 7 hi-side incandescent, 13 8-solenoid, 11/12 lamp matrix column/row,
+\*     4/10 switch matrix out, 5 switch matrix in, 0 not populated) has no direct inputs
+\*   switch matrix (read-matrix report, command 25, 64 bits): a card with a matrix-out wing (4, or 10 on the low wings)
+\* A card without direct inputs never sends (and is never asked for) a read-input report, one without a matrix never a
+\* matrix report: such a report is not a valid report of that card.
+WingInputs(w) == IF w = 1 THEN 0..3 ELSE IF w = 2 THEN 0..7 ELSE IF w = 6 THEN (0..7) \ {4} ELSE IF w = 8 THEN 1..3 ELSE {}
+CardInputs(card) == UNION {{8 * (j - 1) + b : b \in WingInputs(card.w[j])} : j \in 1..4}
+CardHasInputs(card) == \E j \in 1..4 : card.w[j] \in {1, 2, 6, 8}            \* CardInputs(card) # {}
+CardHasMatrix(card) == \E j \in 1..4 : card.w[j] \in {4, 10}
+MayReport(c, a, k) == \E n \in 1..Len(c.cards) : c.cards[n].a = a /\ (IF k = 8 THEN CardHasInputs(c.cards[n])
+                                                                              ELSE k = 25 /\ CardHasMatrix(c.cards[n]))
+\* the (card, kind of report) pairs of the chain, as address byte * 256 + command byte
+CardKeys(card) == (IF CardHasInputs(card) THEN {card.a * 256 + 8} ELSE {}) \cup (IF CardHasMatrix(card) THEN {card.a * 256 + 25} ELSE {})
+OppKeys(c) == UNION {CardKeys(c.cards[n]) : n \in 1..Len(c.cards)}
+
 \* ---------------------------------------------------------------- decoder state
 InitSw(c) == IF c.proto = "opp"
-             THEN [k \in SeqSet(c.keys) |-> IF k % 256 = 8 THEN <<255, 255, 255, 255>>
+             THEN [k \in OppKeys(c) |-> IF k % 256 = 8 THEN <<255, 255, 255, 255>>
                                                         ELSE <<255, 255, 255, 255, 255, 255, 255, 255>>]
              ELSE [k \in SeqSet(c.keys) |-> 0]
 \* infl: PKONE messages_in_flight (commands sent and not yet answered; every terminator decrements it, never below 0)
@@ -199,9 +224,9 @@ FrameMsg(c, f) == IF c.proto = "opp" THEN f ELSE SubSeq(f, 1, Len(f) - 1)     \*
 RECURSIVE FoldSw(_, _, _)
 FoldSw(c, sw, ms) == IF ms = <<>> THEN sw ELSE FoldSw(c, ApplySw(c, sw, Head(ms)), Tail(ms))
 \* switch states as the list of 0/1 of the configured switches cfg.sws (OPP inputs are active low)
+OppSwState(sw, s) == LET p == sw[s.a * 256 + s.c] IN 1 - Bit(p[Len(p) - (s.i \div 8)], s.i % 8)
 Digest(c, sw) == IF c.proto = "opp"
-    THEN [j \in 1..Len(c.sws) |-> LET s == c.sws[j]
-                                      p == sw[s.a * 256 + s.c] IN 1 - Bit(p[Len(p) - (s.i \div 8)], s.i % 8)]
+    THEN [j \in 1..Len(c.sws) |-> OppSwState(sw, c.sws[j])]
     ELSE [j \in 1..Len(c.sws) |-> sw[c.sws[j]]]
 
 \* ---------------------------------------------------------------- environment
@@ -256,7 +281,7 @@ Spec == Init /\ [][Next]_vars
 Whole(n) == Feed(cfg, InitDec(cfg), SubSeq(wire, 1, n))
 AtEnd == phase = "recv" /\ pos = Len(wire)
 \* the valid frames offered by the configuration really are valid (cross-check of Crc8 with the code's CRC)
-FramesValid == \A f \in cfg.frames : (cfg.proto = "opp" => OppOk(f)) /\ (cfg.proto = "fast" => FastOk(cfg, FrameMsg(cfg, f)) \/ FastSaOk(cfg, FrameMsg(cfg, f)))
+FramesValid == (wire = <<>> /\ pending = <<>>) => \A f \in cfg.frames :      \* (cfg never changes: the initial state only) (cfg.proto = "opp" => OppOk(f)) /\ (cfg.proto = "fast" => FastOk(cfg, FrameMsg(cfg, f)) \/ FastSaOk(cfg, FrameMsg(cfg, f)))
                                      /\ (cfg.proto = "pkone" => PkOk(FrameMsg(cfg, f)))
 \* decoded messages, switch states and (normalised) carry-over depend only on the bytes delivered so far
 ChunkInvariance == phase = "recv" => Norm(cfg, dec) = Norm(cfg, Whole(pos))
@@ -266,6 +291,22 @@ BadFrameInert == dec.sw = FoldSw(cfg, InitSw(cfg), [i \in 1..Len(dec.out) |-> de
 \* ones among the first i (a full-state report replaces, an event changes one switch)
 SequenceFollowsReports == ~dec.dead => /\ Len(dec.hist) = Len(dec.out)
     /\ \A i \in 1..Len(dec.out) : dec.hist[i] = FoldSw(cfg, InitSw(cfg), [j \in 1..i |-> dec.out[j].m])
+\* OPP wing layouts: the configured switches sit on inputs which the wings of their card provide (cfg never changes:
+\* looked at in the initial state only) ...
+LayoutValid == (cfg.proto = "opp" /\ wire = <<>> /\ pending = <<>>) => \A j \in 1..Len(cfg.sws) : LET s == cfg.sws[j] IN
+    \E n \in 1..Len(cfg.cards) : /\ cfg.cards[n].a = s.a
+                                  /\ \/ s.c = 8 /\ s.i \in CardInputs(cfg.cards[n])
+                                     \/ s.c = 25 /\ CardHasMatrix(cfg.cards[n]) /\ s.i \in 0..63
+\* ... and whatever the layout of the cards on the chain: a CRC-correct report of a card that has that kind of inputs
+\* sets every configured switch of that card and kind to what the report says (a cleared bit = closed), and no message
+\* changes any other switch (a report with a wrong CRC, of an unknown card, of a card without such inputs changes none)
+ReportedBit(m, i) == Bit(m[Len(m) - 1 - (i \div 8)], i % 8)      \* input / matrix switch i of the report m (last data byte: 0-7)
+WingReportsApplied == (cfg.proto = "opp" /\ ~dec.dead) => \A i \in 1..Len(dec.hist) :
+    LET m == dec.out[i].m
+        valid == OppOk(m) /\ MayReport(cfg, m[1], m[2])
+        before == IF i = 1 THEN InitSw(cfg) ELSE dec.hist[i - 1]
+    IN \A j \in 1..Len(cfg.sws) : LET s == cfg.sws[j] IN
+        OppSwState(dec.hist[i], s) = IF valid /\ m[1] = s.a /\ m[2] = s.c THEN 1 - ReportedBit(m, s.i) ELSE OppSwState(before, s)
 \* ... and on a checksummed link no switch state is ever invented: it is one that a board reported
 NoInventedState == cfg.proto = "opp" =>
     \A k \in DOMAIN dec.sw : dec.sw[k] = InitSw(cfg)[k]
